@@ -39,16 +39,20 @@ func exemptions(trace []tev) []exemption {
 		case e.T == "chdiff" && e.Resp == "tooLong":
 			pendingCh[e.Ch] = append(pendingCh[e.Ch], exemption{key: fmt.Sprintf("ch:%d", e.Ch), from: e.ReqPts, to: e.Pts, at: e.I})
 		case e.T == "toolong":
-			if len(pendingCommon) > 0 {
-				pendingCommon[0].cb = e.I
-				out = append(out, pendingCommon[0])
-				pendingCommon = pendingCommon[1:]
+			// The callback belongs to the LATEST too-long response: the library
+			// reports in the same goroutine right after receiving it. Older
+			// unreported ones were answers the library discarded (the
+			// getDifference of restoreAccessHash only reads the chats).
+			if n := len(pendingCommon); n > 0 {
+				pendingCommon[n-1].cb = e.I
+				out = append(out, pendingCommon[n-1])
+				pendingCommon = nil
 			}
 		case e.T == "chtoolong":
 			if p := pendingCh[e.Ch]; len(p) > 0 {
-				p[0].cb = e.I
-				out = append(out, p[0])
-				pendingCh[e.Ch] = p[1:]
+				p[len(p)-1].cb = e.I
+				out = append(out, p[len(p)-1])
+				pendingCh[e.Ch] = nil
 			}
 		}
 	}
